@@ -7,6 +7,7 @@
    oci.New, NewFromFS, NewFromTar all read the same index.json / blobs). *)
 let fix_f2 = true
 let fix_a = true
+let fix_f1 = true
 
 let ios = int_of_string
 let list_of_commas s = if s = "-" then [] else List.map ios (String.split_on_char ',' s)
@@ -57,10 +58,10 @@ let () =
       let rnd () = rs := (!rs * 1103515245 + 12345) land 0x3fffffff; (!rs lsr 8) land 0xffff in
       let rlist k = List.init k (fun _ -> nat_of_int (rnd () mod 13)) in
       let orders () =
-        { o_save1 = rlist 10; o_save2 = rlist 10; o_gc1 = rlist 10; o_gc2 = rlist 10;
+        { o_save1 = rlist 10; o_save2 = rlist 10; o_gc1 = rlist 10; o_gc2 = List.init 6 (fun _ -> rlist 10);
           o_del = List.init 8 (fun _ -> (rlist 5, rlist 5)) } in
       let do_op o =
-        let (s', r) = step nn mf succs subj sk fix_f2 fix_a cfg !st (o, orders ()) in
+        let (s', r) = step nn mf succs subj sk fix_f2 fix_a fix_f1 cfg !st (o, orders ()) in
         st := s'; Buffer.add_string buf (" " ^ show_result r) in
       let obs s =
         let b = Buffer.create 128 in
